@@ -285,6 +285,20 @@ fn truncations(w: &World, v: &Victim, col: &Collector) {
             return;
         }
     }
+    // extensions: bytes appended (one byte, a second copy of the whole encapsulation)
+    for (k, extra) in [vec![0u8], vec![0xff], v.bytes.clone()].into_iter().enumerate() {
+        let mut m = v.bytes.clone();
+        m.extend_from_slice(&extra);
+        match de::<XEnc>(&m) {
+            Err(_) => col.class("extensions:rejected-at-deserialization"),
+            Ok(_) => {
+                let f = Fail::new("extension-accepted:xenc", format!("encapsulation for '{}' followed by {} more bytes deserializes", v.policy, extra.len()));
+                report_fail(col, "xenc-mutant", f, json!({"policy": v.policy, "mutation": "extend", "variant": k}));
+                return;
+            }
+        }
+        col.eval(1);
+    }
 }
 
 /// Structural mutations through the codec.
@@ -380,6 +394,53 @@ pub fn struct_mutant(v: &Victim, o: &Victim, c: &StructCase) -> Option<(Vec<u8>,
     Some((w.encode(), KINDS[kind]))
 }
 
+/// An encapsulation with 130 targets (more than 128 components): one bit of every component is
+/// flipped in turn, plus the tag and the traps; three keys (first, 129th attribute, broadcast).
+fn wide_victim(col: &Collector) -> CheckResult {
+    let cc = Covercrypt::default();
+    let e = |e: Error| Fail::new("fixture-failed", short_err(&e));
+    let (mut msk, _) = cc.setup().map_err(e)?;
+    msk.access_structure.add_anarchy("W".into()).map_err(e)?;
+    for i in 0..130 {
+        msk.access_structure.add_attribute(qa("W", &format!("w{i}")), hint(false), None).map_err(e)?;
+    }
+    let mpk = cc.update_msk(&mut msk).map_err(e)?;
+    let mut keys = vec![];
+    for p in ["W::w0", "W::w128", "W::w129", "*"] {
+        keys.push((p, cc.generate_user_secret_key(&mut msk, &AccessPolicy::parse(p).map_err(e)?).map_err(e)?));
+    }
+    let pol = (0..130).map(|i| AccessPolicy::Term(qa("W", &format!("w{i}")))).reduce(|a, b| a | b).unwrap();
+    let (secret, enc) = cc.encaps(&mpk, &pol).map_err(e)?;
+    let bytes = ser(&enc)?;
+    let w = WXEnc::decode(&bytes).map_err(|e| Fail::new("codec-cannot-decode-xenc", e))?;
+    if w.encs.len() != 130 {
+        return Err(Fail::new("fixture-failed", format!("{} components", w.encs.len())));
+    }
+    for (p, k) in &keys {
+        if !matches!(cc.decaps(k, &enc), Ok(Some(s)) if s == secret) {
+            return Err(Fail::new("authorized-key-cannot-open", format!("wide encapsulation, key {p}")));
+        }
+    }
+    for comp in 0..130usize {
+        let mut w2 = w.clone();
+        let pos = (comp * 7) % w2.encs[comp].1.len();
+        w2.encs[comp].1[pos] ^= 1 << (comp % 8);
+        let Ok(m) = de::<XEnc>(&w2.encode()) else { continue };
+        col.eval(1);
+        col.class("wide-victim:component-mutants");
+        for (p, k) in &keys {
+            if let Ok(Some(s)) = cc.decaps(k, &m) {
+                return Err(Fail::new(
+                    "mutant-accepted:bit-flip:wide-component",
+                    format!("encapsulation with 130 targets, one bit of component {comp} flipped: key '{p}' obtained {} secret", if s == secret { "the original" } else { "a different" }),
+                ));
+            }
+        }
+        col.nontrivial(&("wide", comp));
+    }
+    Ok(())
+}
+
 pub struct Fixture {
     pub world: World,
     pub victims: Vec<Victim>,
@@ -458,6 +519,21 @@ fn symmetric_sweep(fx: &Fixture, col: &Collector) -> CheckResult {
                         }
                     }
                 }
+                // the serialized header with bytes appended (one byte, a second header) must not be
+                // read back as the genuine header
+                if let Ok(hb) = ser(&h) {
+                    for extra in [vec![0u8], vec![0x2a, 0x2a], hb.clone()] {
+                        let mut m = hb.clone();
+                        m.extend_from_slice(&extra);
+                        col.eval(1);
+                        if let Ok(h5) = de::<EncryptedHeader>(&m) {
+                            if let Ok(Some(_)) = h5.decrypt(&w.cc, key, aad) {
+                                return Err(Fail::new("header-extension-accepted", format!("serialized header ({} bytes) followed by {} more bytes deserializes and decrypts", hb.len(), extra.len())));
+                            }
+                        }
+                        col.class("header-extensions:rejected");
+                    }
+                }
                 // the encapsulation of a header is covered by the XEnc sweeps; one spot check: swap encapsulations of two headers
                 let (_s2, h3) = EncryptedHeader::generate(&w.cc, &w.mpk, &ap, Some(&ptx), aad).map_err(|e| Fail::new("fixture-failed", short_err(&e)))?;
                 let h4 = EncryptedHeader { encapsulation: h3.encapsulation, encrypted_metadata: h.encrypted_metadata.clone() };
@@ -498,6 +574,9 @@ pub fn run(ctx: &Ctx, col: &Collector) -> Meta {
     if let Err(f) = crate::runner::guarded(|| symmetric_sweep(&fx, col)) {
         report_fail(col, "symmetric", f, json!({}));
     }
+    if let Err(f) = crate::runner::guarded(|| wide_victim(col)) {
+        report_fail(col, "wide-victim", f, json!({}));
+    }
     run_cases(&ctx.run_cfg(ctx.n(6000, 200_000), 1), "xenc-struct", struct_strategy, col, |c, col| check_struct(&fx, c, col));
     for k in KINDS {
         if col.class_count(&format!("struct:{k}")) == 0 && !col.stopped() {
@@ -511,7 +590,7 @@ fn meta(ctx: &Ctx) -> Meta {
     Meta {
         level: "fault_enumeration",
         rule: format!(
-            "victims: encapsulations for {:?} (classic 1-3 targets, hybridized 1-4 targets) presented to 5 keys (authorized, unauthorized, broadcast, two-revision); faults: every byte x every bit of the serialized classic encapsulations and of one hybridized one ({}), every other value of the structural bytes (counts, flavour flag, first and last byte of every point) and four values of every other byte outside the ML-KEM ciphertexts (thorough tier: every value of every byte outside them, four values inside), every truncation, generated structural rearrangements through the independent codec ({:?}), every bit of PKE ciphertexts and encrypted header metadata for 4 plaintext lengths, header splices. A mutant that deserializes to an object != the original must yield no secret for every key, each key having just opened the genuine encapsulation on the same instance; a mutant of the tag or of a trap must also be refused by re-encapsulation with the master key. Non-trivial = mutant that deserializes and is presented to an authorized key; distinct by (flavour, #targets, mutation kind, component hit, key)",
+            "victims: encapsulations for {:?} (classic 1-3 targets, hybridized 1-4 targets) presented to 5 keys (authorized, unauthorized, broadcast, two-revision); faults: every byte x every bit of the serialized classic encapsulations and of one hybridized one ({}), every other value of the structural bytes (counts, flavour flag, first and last byte of every point) and four values of every other byte outside the ML-KEM ciphertexts (thorough tier: every value of every byte outside them, four values inside), every truncation, appended bytes (also behind a serialized header), one bit of every component of a 130-target encapsulation, generated structural rearrangements through the independent codec ({:?}), every bit of PKE ciphertexts and encrypted header metadata for 4 plaintext lengths, header splices. A mutant that deserializes to an object != the original must yield no secret for every key, each key having just opened the genuine encapsulation on the same instance; a mutant of the tag or of a trap must also be refused by re-encapsulation with the master key. Non-trivial = mutant that deserializes and is presented to an authorized key; distinct by (flavour, #targets, mutation kind, component hit, key)",
             ENC_POLICIES,
             if ctx.thorough { "all hybridized victims x every bit in this tier" } else { "other hybridized victims: every byte x one bit in this tier" },
             KINDS
@@ -558,6 +637,14 @@ pub fn replay(kind: &str, case: &serde_json::Value, col: &Collector) -> CheckRes
                     }
                     Ok(())
                 }
+                Some("extend") => {
+                    let mut m = v.bytes.clone();
+                    m.push(0);
+                    match de::<XEnc>(&m) {
+                        Ok(_) => Err(Fail::new("extension-accepted:xenc", "an appended byte is accepted".to_string())),
+                        Err(_) => Ok(()),
+                    }
+                }
                 Some("truncate") => {
                     let n = case["len"].as_u64().unwrap_or(0) as usize % v.bytes.len();
                     judge(&fx.world, v, &v.bytes[..n], "truncation", "tail", col)
@@ -566,6 +653,7 @@ pub fn replay(kind: &str, case: &serde_json::Value, col: &Collector) -> CheckRes
             }
         }
         "symmetric" => symmetric_sweep(&fx, col),
+        "wide-victim" => wide_victim(col),
         k => Err(Fail::new("replay-format", format!("unknown kind {k}"))),
     }
 }
